@@ -354,9 +354,19 @@ func MonC04(c *MonCtx) {
 			}
 		}
 		if v.Role == "active" {
+			// "lose it once the replica set has become active": the moment it became active is taken from this history (the
+			// ExtendedDaemonSet reconcile that switched status.activeReplicaSet to it, remembered in the monitor memory), not
+			// from the Active condition the controller stores for itself; without such a memory the stored condition is used.
+			// The controller retries the removal for 5 minutes, so nothing is demanded later than that.
 			ac := ERSCond(v.RS, v1.ConditionTypeActive)
 			now := Epoch.Add(c.Pre.Now)
-			if ac != nil && ac.Status == corev1.ConditionTrue && now.Sub(ac.LastTransitionTime.Time) < 5*60*1e9 {
+			within := ac != nil && ac.Status == corev1.ConditionTrue && now.Sub(ac.LastTransitionTime.Time) < 5*60*1e9
+			if at, ok := c.Pre.Mem["activated:"+ns+"/"+v.RS.Name]; ok {
+				var sec int64
+				fmt.Sscanf(at, "%d", &sec)
+				within = int64(c.Pre.Now/1e9)-sec < 5*60
+			}
+			if within {
 				for _, p := range post.Pods() {
 					if p.Namespace == ns && p.Labels[v1.ExtendedDaemonSetReplicaSetNameLabelKey] == v.RS.Name {
 						if _, has := p.Labels[v1.ExtendedDaemonSetReplicaSetCanaryLabelKey]; has {
@@ -370,6 +380,12 @@ func MonC04(c *MonCtx) {
 		}
 	case "R_eds":
 		e0, e1 := c.Pre.EDS(ns, name), c.Out.Next.EDS(ns, name)
+		if e0 != nil && e1 != nil && e1.Status.ActiveReplicaSet != "" && e0.Status.ActiveReplicaSet != e1.Status.ActiveReplicaSet {
+			if c.Out.Next.Mem == nil {
+				c.Out.Next.Mem = map[string]string{}
+			}
+			c.Out.Next.Mem["activated:"+ns+"/"+e1.Status.ActiveReplicaSet] = fmt.Sprint(int64(c.Pre.Now / 1e9))
+		}
 		if e0 == nil || e1 == nil || e1.Status.Canary == nil || e1.Spec.Strategy.Canary == nil {
 			return
 		}
